@@ -27,6 +27,17 @@ func runFillDrainCase(c *core.Case) *core.Result {
 	fc.Prealloc = r.Chance(1, 4)
 	wbPages := []int{0, 1, 4, 8}[r.Intn(4)]
 	cfg := QConfig{File: fc, WriteBuffer: uint(wbPages * ps)}
+	bulk := c.Idx%8 == 3 || c.Idx%8 == 6
+	if bulk {
+		// a fresh file that is filled to the last page (meta area included) by
+		// bulk flushes of page sized events before anything is ACKed: the ACK
+		// must still commit (cleanup transactions may use the overflow area)
+		ps = 1024
+		maxPages = 64 + []int{0, 0, 1, 5}[r.Intn(4)]
+		fc = filecheck.Config{PageSize: uint32(ps), MaxPages: maxPages, DiskCap: (maxPages + 256) * ps, SyncMode: r.Intn(3)}
+		// the first implicit flush allocates all but five pages of the file at once
+		cfg = QConfig{File: fc, WriteBuffer: uint((maxPages - 5 - r.Intn(2)) * ps)}
+	}
 	q := NewQWorld(cfg, QMon{Property: "C12", Space: true, Counters: true}, r, res)
 	q.TraceOn = c.Verbose
 	table := SizeTable(ps)
@@ -42,6 +53,9 @@ func runFillDrainCase(c *core.Case) *core.Result {
 
 	nextSize := func() int {
 		var n int
+		if bulk && cycles <= 1 {
+			return ps - szEventPageHeader - szEventHeader // exactly one page per event
+		}
 		switch r.Intn(4) {
 		case 0:
 			n = table[r.Intn(len(table))]
@@ -85,13 +99,17 @@ func runFillDrainCase(c *core.Case) *core.Result {
 		if !q.DoneRead() {
 			return false
 		}
-		for q.FullyRead() > q.Acked {
+		for stuck := 0; q.FullyRead() > q.Acked && stuck < 64; {
+			before := q.Acked
 			n := 1 + r.Intn(8)
 			if max := q.FullyRead() - q.Acked; n > max {
 				n = max
 			}
 			if !q.ACK(n) { // reading and ACK must succeed on the full file
 				return false
+			}
+			if q.Acked == before { // an injected fault failed the ACK (fault cases only)
+				stuck++
 			}
 		}
 		return true
@@ -152,13 +170,13 @@ func runFillDrainCase(c *core.Case) *core.Result {
 			if q.WriteErrs+q.NextErrs+q.FlushErrs > errsBefore {
 				break
 			}
-			if r.Chance(1, 10) && !q.Flush() {
+			if r.Chance(1, 10) && !(bulk && cycles <= 1) && !q.Flush() {
 				return finish()
 			}
 			if q.WriteErrs+q.NextErrs+q.FlushErrs > errsBefore {
 				break
 			}
-			if r.Chance(1, 15) && !drain(false) {
+			if r.Chance(1, 15) && !(bulk && cycles <= 1) && !drain(false) {
 				return finish()
 			}
 		}
@@ -169,6 +187,17 @@ func runFillDrainCase(c *core.Case) *core.Result {
 		// consumer catches up completely
 		if !drain(true) {
 			return finish()
+		}
+		if bulk {
+			// the write buffer is about as large as the file, so nothing can be
+			// demanded from the writer here; the point of this variant is that
+			// reading and ACK succeed on a file that is full to the last page
+			res.Add("bulk_fill_cases", 1)
+			traffic = 0
+			for _, e := range q.Events {
+				traffic += int64(len(e))
+			}
+			break
 		}
 		// After space has been freed the buffered events are flushed by a later call.
 		// A chunk that was refused is retried first.
